@@ -56,6 +56,8 @@ RESP = {
     "304": b"HTTP/1.1 304 Not Modified\r\nX-Id: %s\r\nContent-Length: 4\r\n\r\n",
     "headcl": b"HTTP/1.1 200 OK\r\nContent-Length: 4\r\nX-Id: %s\r\n\r\n",
     "close": b"HTTP/1.1 200 OK\r\nContent-Length: 4\r\nConnection: close\r\nX-Id: %s\r\n\r\nbody",
+    # an upstream HTTP proxy's answer to mitmproxy's own CONNECT (upstream mode)
+    "established": b"HTTP/1.1 200 Connection established\r\nX-Id: %s\r\n\r\n",
     # a misbehaving upstream: a complete response followed by surplus bytes that look like another response
     "surplus": b"HTTP/1.1 200 OK\r\nContent-Length: 4\r\nX-Id: %s\r\n\r\nbodyHTTP/1.1 200 OK\r\nContent-Length: 5\r\nX-Id: stale\r\n\r\nstale",
     "surplus-junk": b"HTTP/1.1 200 OK\r\nContent-Length: 4\r\nX-Id: %s\r\n\r\nbody\r\n\r\njunk",
@@ -89,6 +91,10 @@ BASES = [
     # early payload, it must do the same for every segmentation; the opaque payload must reach upstream byte-exact
     ("pipe-tunnel-get", [("connect", None), ("get_origin", "cl")], None),
     ("pipe-tunnel-raw", [("connect", None), ("raw", None)], None),
+    # upstream mode (upstream:http://proxy.test:8080): the tunnel is re-established through the next proxy, whose reply
+    # to mitmproxy's CONNECT is segmented like every other server byte stream
+    ("seq-tunnel-upstream-get", [("connect", "established"), ("get_origin", "cl")], None),
+    ("seq-tunnel-upstream-post-get", [("connect", "established"), ("post_origin", "ch"), ("get_origin", "cl")], None),
     ("seq2", [("get", "cl"), ("post_cl", "ch")], None),
     ("seq2-surplus", [("get", "surplus"), ("get", "cl")], None),
     ("seq3-surplus-junk", [("get", "cl"), ("get", "surplus-junk"), ("get", "cl")], None),
@@ -138,7 +144,7 @@ class Exec:
 
     def run(self, prefix, t: Tally, want_outcome=False):
         name, pairs, stream = self.base
-        w = World(mode="regular", policy=policy_for(stream), snap=h1.http_snap, auto_connect=True)
+        w = World(mode="upstream:http://proxy.test:8080" if "upstream" in name else "regular", policy=policy_for(stream), snap=h1.http_snap, auto_connect=True)
         choices, widths = [], []
         try:
             w.start()
@@ -250,7 +256,8 @@ class Exec:
         ids = [dict((n.lower(), v) for n, v in m["fields"]).get(b"x-id") for m in out["client_msgs"] if not m["start"][1].startswith(b"1")]
         if "tunnel" in name:
             ids = [x for x in ids if x is not None]  # mitmproxy's own `200 Connection established` carries no id
-        t.judge("pipelined_in_order", ids == [b"%d" % i for i in range(len(ids))],
+        first = 1 if "upstream" in name else 0  # id 0 is the next proxy's own 2xx to CONNECT, which is not relayed
+        t.judge("pipelined_in_order", ids == [b"%d" % i for i in range(first, first + len(ids))],
                 feats, case, list(range(len(ids))), ids)
 
 
